@@ -2099,14 +2099,20 @@ func marshalTuple(info TypeInfo, value interface{}) ([]byte, error) {
 	return nil, marshalErrorf("cannot marshal %T into %s", value, tuple)
 }
 
-func readBytes(p []byte) ([]byte, []byte) {
+func readBytes(p []byte) ([]byte, []byte, error) {
 	// TODO: really should use a framer
+	if len(p) < 4 {
+		return nil, nil, unmarshalErrorf("unexpected eof: need 4 bytes for a value length, have %d", len(p))
+	}
 	size := readInt(p)
 	p = p[4:]
 	if size < 0 {
-		return nil, p
+		return nil, p, nil
 	}
-	return p[:size], p[size:]
+	if int(size) > len(p) {
+		return nil, nil, unmarshalErrorf("unexpected eof: value of %d bytes, have %d", size, len(p))
+	}
+	return p[:size], p[size:], nil
 }
 
 // currently only support unmarshal into a list of values, this makes it possible
@@ -2124,7 +2130,11 @@ func unmarshalTuple(info TypeInfo, data []byte, value interface{}) error {
 			// each element inside data is a [bytes]
 			var p []byte
 			if len(data) >= 4 {
-				p, data = readBytes(data)
+				var err error
+				p, data, err = readBytes(data)
+				if err != nil {
+					return err
+				}
 			}
 			err := Unmarshal(elem, p, v[i])
 			if err != nil {
@@ -2153,7 +2163,11 @@ func unmarshalTuple(info TypeInfo, data []byte, value interface{}) error {
 		for i, elem := range tuple.Elems {
 			var p []byte
 			if len(data) >= 4 {
-				p, data = readBytes(data)
+				var err error
+				p, data, err = readBytes(data)
+				if err != nil {
+					return err
+				}
 			}
 
 			v, err := elem.NewWithError()
@@ -2190,7 +2204,11 @@ func unmarshalTuple(info TypeInfo, data []byte, value interface{}) error {
 		for i, elem := range tuple.Elems {
 			var p []byte
 			if len(data) >= 4 {
-				p, data = readBytes(data)
+				var err error
+				p, data, err = readBytes(data)
+				if err != nil {
+					return err
+				}
 			}
 
 			v, err := elem.NewWithError()
@@ -2339,7 +2357,11 @@ func unmarshalUDT(info TypeInfo, data []byte, value interface{}) error {
 			}
 
 			var p []byte
-			p, data = readBytes(data)
+			var err error
+			p, data, err = readBytes(data)
+			if err != nil {
+				return err
+			}
 			if err := v.UnmarshalUDT(e.Name, e.Type, p); err != nil {
 				return err
 			}
@@ -2382,7 +2404,10 @@ func unmarshalUDT(info TypeInfo, data []byte, value interface{}) error {
 			val := reflect.New(valType)
 
 			var p []byte
-			p, data = readBytes(data)
+			p, data, err = readBytes(data)
+			if err != nil {
+				return err
+			}
 
 			if err := Unmarshal(e.Type, p, val.Interface()); err != nil {
 				return err
@@ -2432,7 +2457,11 @@ func unmarshalUDT(info TypeInfo, data []byte, value interface{}) error {
 		}
 
 		var p []byte
-		p, data = readBytes(data)
+		var err error
+		p, data, err = readBytes(data)
+		if err != nil {
+			return err
+		}
 
 		f, ok := fields[e.Name]
 		if !ok {
